@@ -41,11 +41,12 @@ TOLERANCES = {
 }
 ASSUMPTIONS = [
     "the linear solve of iteration k is call index k+1 of linear_solve (index 0 = initial Darcy solve; Bregman's post-loop pressure solve is not an iteration)",
+    "each fault position is injected at two depths: at the linear_solve boundary (the call raises at once) and inside it (the back-end object's solve() raises after linear_solve has done its own preparation)",
     "stopping inequalities are the ones documented in the two _solve methods, recomputed from convergence_history and the options",
 ]
 FLOORS = {
-    "quick": {"mass_balance": 1500, "distance_is_cost_of_flux": 1500, "status_honest": 400, "fault:not_converged": 1000, "fault:last_valid_iterate": 1000, "monitoring_active": 1500},
-    "thorough": {"mass_balance": 12000, "distance_is_cost_of_flux": 12000, "status_honest": 3800, "fault:not_converged": 8000, "fault:last_valid_iterate": 8000, "monitoring_active": 12000},
+    "quick": {"mass_balance": 1500, "distance_is_cost_of_flux": 1500, "status_honest": 400, "fault:not_converged": 2000, "fault:last_valid_iterate": 2000, "fault:depth:backend": 1000, "monitoring_active": 1500},
+    "thorough": {"mass_balance": 12000, "distance_is_cost_of_flux": 12000, "status_honest": 3800, "fault:not_converged": 16000, "fault:last_valid_iterate": 16000, "fault:depth:backend": 8000, "monitoring_active": 12000},
 }
 SHARD_TIMEOUT = {"quick": 1500, "thorough": 6000}
 
@@ -136,11 +137,11 @@ def run_shard(spec, R):
         fscale = max(float(np.max(np.abs(f_flat))), 1e-300)
         mb_tol = 1e-9 if backend == "direct" else 1e-6
 
-        def build(fail_at=None):
+        def build(fail_at=None, deep=False):
             opt = wass.make_options(darsia, c["method"], c["l1"], c["mob"], formulation, backend, c["aa"], num_iter, extra)
             grid = darsia.generate_grid(m1)
             w1 = wass.solver_class(darsia, c["method"])(grid, weight_img, opt)
-            return w1, wass.Capture(w1, fail_at=fail_at), opt
+            return w1, wass.Capture(w1, fail_at=fail_at, deep=deep), opt
 
         def judge_common(w1, cap, out, label):
             """Clauses that must hold for clean and faulted runs alike; returns flux."""
@@ -170,10 +171,10 @@ def run_shard(spec, R):
             # (b) distance is the cost of exactly that flux
             lib = float(w1.l1_dissipation(flux))
             R.check(float(dist) == lib, "distance_is_library_functional_of_flux", lambda: {**det, "distance": float(dist), "functional": lib},
-                    key=lambda: "C04:failure_at_iteration0_distance_zero" if (label == "fault@0" and float(dist) == 0.0) else None, group=grp)
+                    key=lambda: "C04:failure_at_iteration0_distance_zero" if (label.startswith("fault@0") and float(dist) == 0.0) else None, group=grp)
             ind = TR.cost(M, flux, c["l1"], 1.0 if cw is None else float(cw))
             R.check(abs(float(dist) - ind) <= 1e-10 * max(abs(ind), 1e-300) + 1e-300, "distance_is_cost_of_flux", lambda: {**det, "distance": float(dist), "independent_cost": ind},
-                    key=lambda: "C04:failure_at_iteration0_distance_zero" if (label == "fault@0" and float(dist) == 0.0) else None, group=grp)
+                    key=lambda: "C04:failure_at_iteration0_distance_zero" if (label.startswith("fault@0") and float(dist) == 0.0) else None, group=grp)
             # (c) auxiliary outputs derive from the same solution
             d_out, info_out = out
             R.check(float(d_out) == float(dist), "returned_distance_is_solved_distance", det)
@@ -247,12 +248,12 @@ def run_shard(spec, R):
         # ---------------------------------------------------- fault enumeration
         hist = info["convergence_history"]["distance"]
         init_flux = None
-        for k in range(0, min(n_iter_run, K) + 1):
+        for k, deep in [(kk, dd) for kk in range(0, min(n_iter_run, K) + 1) for dd in (False, True)]:
             if k >= n_iter_run and n_iter_run >= num_iter:
                 break  # iteration k does not exist
             if k > n_iter_run - 1 and conv:
                 break  # the clean run stopped before iteration k
-            ok, built = R.guarded("solver_constructible", lambda: build(fail_at=k + 1))
+            ok, built = R.guarded("solver_constructible", lambda: build(fail_at=k + 1, deep=deep))
             if not ok:
                 continue
             wf, capf, _ = built
@@ -264,7 +265,8 @@ def run_shard(spec, R):
                 R.skip("fault_position_not_reached")
                 continue
             R.event("run", case=c["id"], fault=k, linear_calls=len(capf.linear_calls), swallowed=capf.swallowed, converged=bool(capf.solve_result[2]["converged"]))
-            label = f"fault@{k}"
+            label = f"fault@{k}" + ("/backend" if deep else "/boundary")
+            R.count("fault:depth:" + ("backend" if deep else "boundary"))
             R.check(any("InjectedFault" in s for s in capf.swallowed) or not getattr(capf, "monitoring", False), "fault:observed_swallowed", {**desc, "k": k, "swallowed": capf.swallowed})
             df, solf, infof = capf.solve_result
             R.check(not bool(infof["converged"]), "fault:not_converged", {**desc, "k": k, "converged": bool(infof["converged"]), "number_iterations": infof["number_iterations"]},
@@ -284,7 +286,7 @@ def run_shard(spec, R):
             else:
                 ref = hist[k - 1]
                 R.check(abs(float(df) - ref) <= 1e-12 * max(abs(ref), 1e-300), "fault:last_valid_iterate", {**desc, "k": k, "distance": float(df), "clean_history": ref}, group=grp)
-            R.sig([c["grid"], c["mass"], c["method"], c["l1"], c["mob"], formulation, backend, c["aa"], c["weight"], c["tight"], k], nontriv)
+            R.sig([c["grid"], c["mass"], c["method"], c["l1"], c["mob"], formulation, backend, c["aa"], c["weight"], c["tight"], k, deep], nontriv)
 
 
 MANIFEST = {
